@@ -114,6 +114,12 @@ def run(tier, rep):
             g["behaviours"] = thin(beh, 3)
         rep.add_mc("Gen_Recovery/" + part, g)
         _drive_validate(rep, part, beh)
+    sigs = {}
+    for sig, _, _ in rep.violations:
+        sigs[sig] = sigs.get(sig, 0) + 1
+    rep.cov["signatures"] = sigs
+    for k in sorted(sigs):
+        vlib.log("  %6d x %s" % (sigs[k], k))
     rep.cov["rule"] = ("environment schedules for one path's controller -- sends in three packet-number spaces (sizes, ack-eliciting / in-flight flags, "
                        "free or out of a granted quota, bursts), ACK frames (every non-empty subset of the sent packet numbers, delays, ECN-CE counts), "
                        "clock advances (fixed steps and exactly to / just past the design's deadline), ticks, quota requests, discards, handshake and "
